@@ -6,6 +6,7 @@
 (* id is the base run (with the function table `dag` of that run: name, arguments incl.     *)
 (* *_params arguments, rounding key); every later event is judged against it:               *)
 (*   same      common columns are identical                                  (C04, C14)     *)
+(*   close     common columns agree to 1e-9 relative (input given in another unit) (C13)    *)
 (*   targets   + the result has exactly the requested columns, all rows      (C04)          *)
 (*   override  column `node` supplied as data: announced in `warned`; every other column    *)
 (*             identical (1e-9 for descendants of another time unit of the flow)  (C05)     *)
@@ -49,6 +50,7 @@ BadOf(e, b) ==
       common == IF shape # {} THEN {} ELSE Common(e, b)
   IN shape \cup
      CASE e.rel = "same" -> {[col |-> c, c |-> "value"] : c \in {c \in common : ~ColSame(e, b, c)}}
+       [] e.rel = "close" -> {[col |-> c, c |-> "value"] : c \in {c \in common : ~ColClose(e, b, c)}}
        [] e.rel = "targets" ->
             {[col |-> c, c |-> "value"] : c \in {c \in common : ~ColSame(e, b, c)}}
             \cup (IF ColSet(e) # SeqToSet(e.requested) THEN {[col |-> "*", c |-> "columns"]} ELSE {})
